@@ -311,6 +311,11 @@ def run(ctx):
     if len(list(ff.calls(r"TextDecoder::split_utf8_start$"))) != 1:
         r.violate("feed_text|single-fast-path", "feed_text must consult split_utf8_start exactly once, before the streaming decoder", ff.loc())
 
+    # ------------------------------------------------------------------ R02.7 (shared with C13 R13.4)
+    # the slow (streaming) and the fast decode path must treat a leading U+FEFF alike: no BOM handling on either
+    from .c13 import rule_no_bom_sniffing
+    rule_no_bom_sniffing(ctx, mir, rid="R02.7")
+
     ctx.not_decided += ["invariance of the concatenation of text chunks (decoder arithmetic)", "equality of outputs/events between two schedules as such (relation between runs)"]
     return ("Mechanism clauses of chunk-boundary invariance: end-of-chunk behaviour of all %d automaton states incl. every look-ahead prefix, "
             "type-driven completeness of Align impls and of adjust_for_next_input, re-basing in break_on_end_of_input, flush-before-scope-change "
